@@ -231,8 +231,8 @@ def rule_SB11(rep, prog, q):
             rep.require(rid, ok, st.loc, name, "barrier-async-item-not-marked:%s:store" % name,
                         "%s stores dc_flags without DC_FLAG_BARRIER" % name, sample={"api": name, "store": st.loc})
     # block objects: concrete evaluation of the flag plumbing for every combination of the creation flag and the caller's flags
-    k = consts.get(["DISPATCH_BLOCK_BARRIER"], srcdir=q.srcdir)
-    BB = k["DISPATCH_BLOCK_BARRIER"]
+    k = consts.get(["DISPATCH_BLOCK_BARRIER", "DISPATCH_BLOCK_HAS_VOUCHER", "DISPATCH_BLOCK_HAS_PRIORITY"], srcdir=q.srcdir)
+    BB, HV, HP = k["DISPATCH_BLOCK_BARRIER"], k["DISPATCH_BLOCK_HAS_VOUCHER"], k["DISPATCH_BLOCK_HAS_PRIORITY"]
     fn = prog.fn("_dispatch_sync_block_with_privdata")
     rep.saw(fn)
     lds = [l for l in fn.all_insts() if l.op == "load" and "dbpd_flags" in prog.fields(l)]
@@ -240,7 +240,7 @@ def rule_SB11(rep, prog, q):
     if not lds or not syncs:
         rep.unknown(rid, "anchor vanished in _dispatch_sync_block_with_privdata (dbpd_flags loads=%d, sync submissions=%d)" % (len(lds), len(syncs)))
     else:
-        for bflags in (BB, BB | 0x8, 0, 0x8):
+        for bflags in (BB, BB | 0x8, BB | HV, BB | HP | HV, 0, 0x8, HV, HP):
             for inflags in (0, B):
                 env = {l.id: bflags for l in lds}
                 env[("a", 2)] = inflags
@@ -250,7 +250,12 @@ def rule_SB11(rep, prog, q):
                     rep.unknown(rid, "could not follow _dispatch_sync_block_with_privdata concretely for block flags %#x" % bflags)
                     continue
                 v = ceval(fn, hit.ops[-1], {k_: v_ for k_, v_ in env.items() if not isinstance(v_, tuple)})
-                marked = ("barrier" in hit.callee) or (v is not None and bool(v & B))
+                marked = "barrier" in hit.callee
+                if v is not None and bool(v & B) and not marked:
+                    rep.violation(rid, hit.loc, fn.name, "block-sync-barrier-flag-to-reader-entry:%#x:%#x" % (bflags, inflags),
+                                  "_dispatch_sync_block_with_privdata passes dc_flags %#x (DC_FLAG_BARRIER set) to the NON-barrier entry %s for a block created with flags "
+                                  "%#x: on a contended concurrent queue the waiter is queued as a barrier (it is handed the whole width) but completes as a reader "
+                                  "(gives one slot back): the queue stays locked by a thread that has left and nothing submitted later ever runs" % (v, hit.callee, bflags))
                 want = bool(bflags & BB) or bool(inflags & B)
                 rep.require(rid, marked == want, hit.loc, fn.name, "block-sync-barrier:%#x:%#x" % (bflags, inflags),
                             "_dispatch_sync_block_with_privdata submits a block object created with flags %#x (caller flags %#x) through %s with dc_flags %s: %s"
@@ -267,7 +272,7 @@ def rule_SB11(rep, prog, q):
     if not lds or not sts:
         rep.unknown(rid, "anchor vanished in _dispatch_continuation_init_slow (dbpd_flags loads=%d, dc_flags stores=%d)" % (len(lds), len(sts)))
         return
-    for bflags in (BB, BB | 0x8, 0, 0x8):
+    for bflags in (BB, BB | 0x8, BB | HV, BB | HP | HV, 0, 0x8, HV, HP):
         for inflags in (0, B):
             env = {l.id: bflags for l in lds}
             env.update({l.id: inflags | 0x4 for l in old})
